@@ -26,7 +26,7 @@ CHECKS = {
         "ref": "DESIGN.md section 2, C03",
         "note": "Trusted: ast, path enumeration without test correlation (conservative), bit-slice domain. "
                 "Direct (parser preload) writes are outside the boundary rule.",
-        "technique": "static analysis: must-pass-through path rule + bit-slice abstract interpretation + sibling agreement",
+        "technique": "static analysis: must-pass-through path rule + bit-slice abstract interpretation + sibling agreement + dataflow normal forms (sa.symflow) for fill/write-back/configuration",
     },
     "C07": {
         "text": "Decides the clauses of the schedule visible in the code's shape: exactly one cycle tick per "
@@ -38,7 +38,7 @@ CHECKS = {
         "ref": "DESIGN.md section 2, C07",
         "note": "Trusted: ast, constant folding, path enumeration. The stall countdown arithmetic inside "
                 "Pipeline.step is value-level.",
-        "technique": "static analysis: who-may-write + dominance + constant-agreement rules",
+        "technique": "static analysis: who-may-write + dominance + constant-agreement rules + reference comparison of Pipeline.step and the stage datapath on dataflow normal forms (truth/decision tables) + truth-function comparison of the interlock condition",
     },
     "C09": {
         "text": "Decides the accounting discipline structurally and exhaustively over paths: on each of the 53 "
@@ -50,7 +50,7 @@ CHECKS = {
                 "memory. Equality with a reference cache's hit sequence is history-dependent and not decided.",
         "ref": "DESIGN.md section 2, C09",
         "note": "Trusted: ast, path enumeration (uncorrelated tests only add paths).",
-        "technique": "static analysis: per-path exactly-once rule + who-may-write + call-site enumeration",
+        "technique": "static analysis: per-path exactly-once rule (helpers inlined) + who-may-write + call-site enumeration + reference comparison of the cache lookups on dataflow normal forms",
     },
     "C10": {
         "text": "Only the coupling and self-consistency clauses: the set notifies the policy on every hit and "
@@ -61,7 +61,7 @@ CHECKS = {
                 "reachable policy states and is not decided.",
         "ref": "DESIGN.md section 2, C10",
         "note": "Trusted: ast, linear forms, parity domain. Unrecognised policy shapes are reported as not decided.",
-        "technique": "static analysis: call-order path rule + sibling-consistency in linear/parity domains",
+        "technique": "static analysis: reference comparison of CacheSet.read/write on dataflow normal forms + abstract interpretation of both PLRU walks (affine forms over bit symbols, depths 0..4) + who-may-call",
     },
     "C11": {
         "text": "Decides: exactly one guarded read_instruction per executed instruction on every path of the IF "
@@ -71,7 +71,7 @@ CHECKS = {
                 "memory with no other mutable field. Hit counts against a reference cache are not decided.",
         "ref": "DESIGN.md section 2, C11",
         "note": "Trusted: ast, path enumeration. CLI display fetch is a tabled exemption.",
-        "technique": "static analysis: call-site enumeration + path rules + reset-completeness",
+        "technique": "static analysis: call-site enumeration + path rules + reset-completeness + loop-normalised normal form of the block fill",
     },
     "C12": {
         "text": "Decides the mechanisms per path: write-through writes lower memory exactly once with the caller's "
@@ -81,7 +81,7 @@ CHECKS = {
                 "reachable cache states are not decided.",
         "ref": "DESIGN.md section 2, C12",
         "note": "Trusted: ast, path enumeration.",
-        "technique": "static analysis: must-pass-through / result-must-be-consumed path rules",
+        "technique": "static analysis: must-pass-through / result-must-be-consumed path rules + reference comparison of CacheSet.write + bit-slice address partition + reset-completeness",
     },
     "C13": {
         "text": "Decides: guard dominance (first effectful event on every path of step/half-steps/run is preceded "
@@ -116,7 +116,7 @@ CHECKS = {
         "ref": "DESIGN.md section 2, C01",
         "note": "Trusted: ast, the ISA table in sa/rules/c01.py, sa.rvnf cast-erasure rules, fixedint semantics. "
                 "CSR*/FENCE/EBREAK out of scope as in the property.",
-        "technique": "static analysis: normal-form extraction vs ISA table + bit-slice abstract interpretation + who-may-write",
+        "technique": "static analysis: normal-form extraction vs ISA table + bit-slice abstract interpretation of the format constructors + who-may-write + truth-function comparison of done()",
     },
     "C02": {
         "text": "Decides sibling agreement of the two implementations of each of the 45 in-scope instruction classes "
@@ -130,7 +130,7 @@ CHECKS = {
         "ref": "DESIGN.md section 2, C02",
         "note": "Trusted: ast, sa.rvnf, sa.effects, fixedint semantics. The composition hard-codes the stage muxes, "
                 "which R02.mux checks as shapes of the stage code.",
-        "technique": "static analysis: sibling cross-check by normal forms + effect confinement + constant agreement",
+        "technique": "static analysis: sibling cross-check by normal forms + stage datapath table and Pipeline.step reference on dataflow normal forms + effect confinement + constant agreement",
     },
     "C04": {
         "text": "Decides: agreement of grammar mnemonics / instruction_map / pseudo handlers; exhaustive and well-typed "
@@ -142,7 +142,7 @@ CHECKS = {
                 "Label addresses by value for arbitrary programs are not enumerated.",
         "ref": "DESIGN.md section 2, C04",
         "note": "Trusted: ast, sa.ppgram model of the pyparsing subset, sa.align.",
-        "technique": "static analysis: grammar IR from AST + template alignment + table agreement + linear forms",
+        "technique": "static analysis: grammar IR from AST + template alignment + table agreement + truth functions of the two address passes per entry kind (per-path substitution) + bit-slice evaluation of the lui/addi split + reference comparisons",
     },
     "C05": {
         "text": "Decides the layout table row by row (element size recorded for name[i], stride, writer, cast per "
@@ -153,7 +153,7 @@ CHECKS = {
                 "constants and R01.immw.",
         "ref": "DESIGN.md section 2, C05",
         "note": "Trusted: ast, consteval, fixedint width reduction.",
-        "technique": "static analysis: per-row table agreement + clone detection + constant folding",
+        "technique": "static analysis: per-row table agreement + bit-slice evaluation of backward slices (lui/addi split) + residue analysis mod 4 of the layout counter (abstract interpretation) + constant folding",
     },
     "C06": {
         "text": "Decides: the instruction register is only loaded by decoding memory[pc] under pc <= max_pc (self-"
@@ -164,7 +164,7 @@ CHECKS = {
                 "boundaries are value-level and not decided.",
         "ref": "DESIGN.md section 2, C06",
         "note": "Trusted: ast, operator table in sa/rules/c06.py, fixedint semantics.",
-        "technique": "static analysis: def-use/path rules + operator-table normal forms + who-may-write",
+        "technique": "static analysis: reference comparison of the two half-steps on dataflow normal forms + operator-table normal forms + decode by abstract interpretation per opcode + who-may-write",
     },
     "C08": {
         "text": "Decides that the flag gates the decode interlock and nothing else: one reader (the `if` around the "
@@ -186,7 +186,7 @@ CHECKS = {
                 "Value identity of immediates rests on idempotent sign extension (R01.immw).",
         "ref": "DESIGN.md section 2, C14",
         "note": "Trusted: ast, sa.ppgram, sa.align. FENCE excluded by the property.",
-        "technique": "static analysis: template/grammar alignment + DFA language inclusion + binding composition",
+        "technique": "static analysis: template/grammar alignment + DFA language inclusion + binding composition + reference comparisons (operand conversion, listing) + bit-slice idempotence of immediates",
     },
     "C15": {
         "text": "Decides: for every int() conversion of a token, inclusion of the token's regular language (from the "
@@ -208,7 +208,7 @@ CHECKS = {
                 "strings for particular values come from str.format and are not re-derived.",
         "ref": "DESIGN.md section 2, C17",
         "note": "Trusted: ast, consteval, bitslice, str.format semantics.",
-        "technique": "static analysis: constant folding per width + call-site enumeration",
+        "technique": "static analysis: dataflow normal forms of the formatter and the row builder + bit-slice evaluation of the signed/unsigned value + constant folding per width + call-site enumeration",
     },
     "C18": {
         "text": "Decides: the backing dict is touched at exactly two places, both behind the optional wrap and the "
@@ -218,7 +218,7 @@ CHECKS = {
                 "dict semantics and not separately decided.",
         "ref": "DESIGN.md section 2, C18",
         "note": "Trusted: ast, bitslice, consteval, dict semantics.",
-        "technique": "static analysis: who-may-access + path ordering + bit-slice abstract interpretation",
+        "technique": "static analysis: who-may-access + dataflow normal form of the cell accessors + abstract interpretation of the multi-cell accessors in the bit-slice domain + configuration folding",
     },
     "C19": {
         "text": "Decides every row of the TOY encode/decode tables and the field arithmetic symbolically: 13 "
@@ -228,7 +228,7 @@ CHECKS = {
                 "over all 2^16 words without enumerating them; assembler placement rules as shapes.",
         "ref": "DESIGN.md section 2, C19",
         "note": "Trusted: ast, consteval, bitslice.",
-        "technique": "static analysis: table agreement + bit-slice abstract interpretation",
+        "technique": "static analysis: table agreement + bit-slice abstract interpretation (fields, decode per opcode) + truth functions of the label pass per entry kind",
     },
 }
 
